@@ -921,10 +921,12 @@ static inline int myth_barrier_wait_body(myth_barrier_t * barrier) {
       MYTH_VERIF_POINT(MYTH_VP_BAR_RESET, barrier, 0, 0);
       //myth_wake_many_from_queue(barrier->sleep_q, 0, 0, c);
       myth_wake_many_from_stack(barrier->sleep_s, 0, 0, c);
+      MYTH_VERIF_POINT(MYTH_VP_BAR_RETURN, barrier, 0, MYTH_BARRIER_SERIAL_THREAD);
       return MYTH_BARRIER_SERIAL_THREAD;
     } else {
       //myth_block_on_queue(barrier->sleep_q, 0);
       myth_block_on_stack(barrier->sleep_s, 0);
+      MYTH_VERIF_POINT(MYTH_VP_BAR_RETURN, barrier, 0, 0);
       return 0;
     }
   }
@@ -984,6 +986,7 @@ static inline int myth_join_counter_wait_body(myth_join_counter_t * jc) {
     long s = jc->state;
     MYTH_VERIF_POINT(MYTH_VP_JC_WAIT_READ, jc, jc->sleep_q, s);
     if ((s & jc->state_mask) == jc->n_threads) {
+      MYTH_VERIF_POINT(MYTH_VP_JC_WAIT_RETURN, jc, 0, s);
       return 0;
     }
     /* try to indicate I am going to sleep. */
